@@ -559,6 +559,24 @@ func c07WritersGen(t *rapid.T) C07Writers {
 		if chance(t, "swap", 50) {
 			a, b = b, a
 		}
+		if chance(t, "tonil", 25) {
+			// the transition to passthrough with debug ON beforehand, racing with a call that depends on or sets the
+			// debug flag: two rounds whose calls are identical (hence deterministic) establish (cfgK, debug on) first
+			k := intIn(t, "cfgk", 1, 4)
+			c.Rounds = append(c.Rounds, [2]COp{{Kind: "reconf", Cfg: k}, {Kind: "reconf", Cfg: k}}, [2]COp{{Kind: "debug", On: true}, {Kind: "debug", On: true}})
+			a = COp{Kind: "reconf_nil"}
+			switch uniform(t, "against", 3) {
+			case 0:
+				b = COp{Kind: "debug", On: true}
+			case 1:
+				b = COp{Kind: "reconf", Cfg: intIn(t, "cfgn", 1, 4)}
+			default:
+				b = COp{Kind: "debug", On: false}
+			}
+			if chance(t, "swap2", 50) {
+				a, b = b, a
+			}
+		}
 		c.Rounds = append(c.Rounds, [2]COp{a, b})
 	}
 	return c
@@ -578,6 +596,18 @@ func stateSig(m *cors.Middleware) string {
 // Config(), a debug-sensitive failing preflight, a succeeding preflight and an
 // actual request. Each is a single call and is judged on its own (the state
 // may legitimately change between two of them).
+func quickOb(m *cors.Middleware, k int) string {
+	switch k {
+	case 0:
+		return cfgJSON(m.Config())
+	case 1:
+		return Do(m.Wrap, c07Requests[1], nil).Sig()
+	case 2:
+		return Do(m.Wrap, c07Requests[0], nil).Sig()
+	}
+	return Do(m.Wrap, c07Requests[8], nil).Sig()
+}
+
 func quickObs(m *cors.Middleware) [4]string {
 	return [4]string{cfgJSON(m.Config()), Do(m.Wrap, c07Requests[1], nil).Sig(), Do(m.Wrap, c07Requests[0], nil).Sig(), Do(m.Wrap, c07Requests[8], nil).Sig()}
 }
@@ -603,7 +633,7 @@ func c07WritersCheck(c C07Writers, rec *Recorder) *Disc {
 	}
 	s := dbgState{cfg: 1}
 	m := freshMW(s)
-	const nReaders = 3
+	const nReaders = 5
 	for i, round := range c.Rounds {
 		start := make(chan struct{})
 		var wg, rg sync.WaitGroup
@@ -616,18 +646,27 @@ func c07WritersCheck(c C07Writers, rec *Recorder) *Disc {
 				defer rg.Done()
 				<-start
 				for !stop.Load() {
-					for k, v := range quickObs(m) {
-						seen[r][[2]string{fmt.Sprint(k), v}] = struct{}{}
-					}
+					// each reader repeats ONE kind of observation as fast as it can (two readers take the
+					// debug-sensitive failing preflight), so that short-lived states are more likely to be seen
+					k := []int{1, 0, 2, 1, 3}[r]
+					seen[r][[2]string{fmt.Sprint(k), quickOb(m, k)}] = struct{}{}
 				}
 			}(r)
 		}
-		for _, o := range round {
+		for j, o := range round {
 			o := o
+			// sweep the relative timing of the two calls: a call that validates a configuration reaches the lock
+			// microseconds after one that does not, so one of the two is held back by 0-12 us (a function of the round)
+			var hold time.Duration
+			if j == i%2 {
+				hold = time.Duration((i/2)%50) * 250 * time.Nanosecond
+			}
 			wg.Add(1)
 			go func() {
 				defer wg.Done()
 				<-start
+				for t0 := time.Now(); time.Since(t0) < hold; {
+				}
 				doCOp(m, o)
 			}()
 		}
@@ -683,6 +722,18 @@ func c07WritersCheck(c C07Writers, rec *Recorder) *Disc {
 			rec.Class("order-matters")
 		}
 		s = next
+		if s.cfg == 0 {
+			// a passthrough middleware shows nothing of its debug flag; reveal it: Reconfigure(nil) has switched
+			// debug off, so after a quiescent Reconfigure(cfg1) the state must be (cfg1, debug=false)
+			reveal := COp{Kind: "reconf", Cfg: 1}
+			doCOp(m, reveal)
+			s = s.apply(reveal)
+			if got := stateSig(m); got != sigOf(s) {
+				return discf("two concurrent writers, round %d: concurrent calls %s and %s left the middleware passthrough; a following Reconfigure(cfg1) (nothing else running) gives a state that is not %s: %s",
+					i, round[0], round[1], s, abbrev(got, 400))
+			}
+			rec.Class("revealed-after-passthrough")
+		}
 	}
 	rec.NonTrivialHash(h64(fmt.Sprintf("%+v", c.Rounds[:min(len(c.Rounds), 50)])))
 	return nil
@@ -690,8 +741,8 @@ func c07WritersCheck(c C07Writers, rec *Recorder) *Disc {
 
 func TestC07Writers(t *testing.T) {
 	Prop[C07Writers]{ID: "C07", Part: "writers", Gen: c07WritersGen, Check: c07WritersCheck,
-		Rule: "(c) two concurrent writers and three concurrent readers: 300-3000 rounds; in each round two calls (Reconfigure to one of 5 configurations (one of them with 300 origin patterns) / nil / invalid, SetDebug; 60% of rounds pair a configuration change with a debug change) are released at the same instant on two goroutines; " +
-			"a serial order of the two calls must explain BOTH the final state (Config() and the answers to the 14 requests equal those of a fresh middleware in the state that order ends in) AND every observation the readers made meanwhile (each must be one of the three states that order passes through); lost updates and transient never-current states are thereby visible. Runs under the race detector. " +
+		Rule: "(c) two concurrent writers and five concurrent readers (each repeating one kind of observation; the relative timing of the two calls is swept over 0-12 us): 300-3000 rounds; in each round two calls (Reconfigure to one of 5 configurations (one of them with 300 origin patterns) / nil / invalid, SetDebug; 60% of rounds pair a configuration change with a debug change; 25% are preceded by two deterministic rounds establishing (cfgK, debug on) and then race Reconfigure(nil) against SetDebug or Reconfigure(cfg)) are released at the same instant on two goroutines; " +
+			"a serial order of the two calls must explain BOTH the final state (Config() and the answers to the 14 requests equal those of a fresh middleware in the state that order ends in) AND every observation the readers made meanwhile (each must be one of the three states that order passes through); lost updates and transient never-current states are thereby visible; whenever a round ends in passthrough, a quiescent Reconfigure(cfg1) follows and must give (cfg1, debug off), which reveals a debug flag wrongly kept by a passthrough middleware. Runs under the race detector. " +
 			"evaluations = rounds; non-trivial = every drawn round sequence; distinct by sequence.",
 		Assumptions: []string{"schedule-dependent like the stress part: a lost update needs the two calls to overlap"}}.Run(t)
 }
